@@ -77,6 +77,20 @@ def scenarios(tier):
 
 def families(tier):
     out = scenarios(tier)
+    # an in-handler await AFTER an earlier handler was cut off by its time-out in the middle of its own in-handler await (same / other bus, serial / parallel)
+    deep = tier == 'thorough'
+    for b1, b2, par, cshape in itertools.product('AB', 'AB', (False, True), ('pause', 'g_aw')):
+        names = ['A', 'B'] if 'B' in (b1, b2) else ['A']
+        hc = [('pause',), ('pause',)] if cshape == 'pause' else [('disp', b1, 'G', 'await')]
+        hs = [dict(bus='A', pat='P', name='hp', prog=[('disp', b1, 'C', 'await'), ('pause',)]), dict(bus=b1, pat='C', name='hc', prog=hc), dict(bus=b1, pat='G', name='hg', prog=[('pause',), ('pause',)]),
+              dict(bus='A', pat='Q', name='hq', prog=[('disp', b2, 'X', 'await'), ('ret', 1)]), dict(bus=b2, pat='X', name='hx', prog=[('pause',), ('ret', 2)])]
+        if par:
+            hs.append(dict(bus='A', pat='Q', name='hq2', prog=[('disp', b2, 'X2', 'await'), ('ret', 1)]))
+        main = [('disp', 'A', 'P', 'ff', {'timeout': 0.5}), ('disp', 'A', 'Q', 'late'), ('await', 'Q')]
+        for order in ([names] if len(names) == 1 else [names, names[::-1]]):
+            out.append(dict(prop='C04', family='c04.after_timeout', id=f'c04/after-tmo-{b1}{b2}-p{int(par)}-{cshape}-o{"".join(order)}',
+                            cfg=dict(bound=3 if deep else 2, cap=20000 if deep else 2500, window=0.8, max_targets=2), params=dict(nb=len(names), ybus=b2, k=0, shape='after_timeout', warm=False, extra=False, fwd='none'),
+                            scn=dict(buses={b: dict(parallel=(par and b == 'A')) for b in names}, order=order, forwards=[], handlers=hs, main=main, actors=[], settle=2.0)))
     # the grammar-generated corpus shared by the bus properties (vsched/gen.py), judged by this property's oracle
     from .. import gen
     out += gen.family('C04', tier, params=dict(k=0), timeouts=(None,))
